@@ -96,6 +96,9 @@ def _make_samples(spec):
                 vals.append(b * 10 + j)
             elif kind == "views":
                 vals.append([torch.tensor([float(b)]), torch.tensor([float(b + 100)])])
+            elif kind == "dictitem":
+                # an item that is a dict itself (e.g. recorded crop parameters requested through a ctx.* item): collates to a dict of tensors
+                vals.append({"top": torch.tensor(float(b)), "left": torch.tensor(float(b + j))})
             else:
                 vals.append(torch.tensor(float(b)))
         item = vals[0] if len(vals) == 1 else tuple(vals)
@@ -258,11 +261,25 @@ def check_shipped(spec):
     colls = []
     for name in spec["colls"]:
         if name == "mix":
-            colls.append(KC.KDMixCollator(mixup_alpha=1.0, mixup_p=1.0, shuffle_mode="roll"))
+            # own_mode: the member was configured for direct use with a mode of its own; inside a container the container's mode governs
+            own = dict(dataset_mode="class x", return_ctx=False) if spec.get("own_mode") else {}
+            colls.append(KC.KDMixCollator(mixup_alpha=1.0, mixup_p=1.0, shuffle_mode="roll", **own))
         else:
             colls.append(KC.KDDinoMaskCollator(mask_ratio=(0.1, 0.5), mask_prob=0.5, mask_size=(4, 4), num_views=1))
     for c in colls:
         c.set_rng(np.random.default_rng(spec["seed"]))
+    if spec.get("dict_second"):
+        # a two-item mode whose second item is a dict (recorded crop parameters requested next to the image): it is an item of the batch,
+        # not the context - whatever container type the members hand back
+        samples2 = [((xs[b].clone(), {"top": torch.tensor(float(b)), "left": torch.tensor(float(2 * b))}), {"tag": torch.tensor(float(b))}) for b in range(B)]
+        out = KC.KDComposeCollator(colls, dataset_mode="x crop", return_ctx=True)(samples2)
+        if not (isinstance(out, tuple) and len(out) == 2 and isinstance(out[1], dict) and "tag" in out[1]):
+            raise Violation("shipped:dict-item-mistaken-for-the-context", f"result {type(out).__name__} with context keys {sorted(out[1]) if isinstance(out, tuple) and len(out) == 2 and isinstance(out[1], dict) else '?'}")
+        b2, ctx2 = out
+        if not (isinstance(b2, (tuple, list)) and len(b2) == 2 and isinstance(b2[1], dict) and sorted(b2[1]) == ["left", "top"]
+                and b2[1]["top"].tolist() == [float(b) for b in range(B)] and tuple(b2[0].shape) == (B, 1, 4, 4)):
+            raise Violation("shipped:dict-item-lost-or-changed", f"batch {type(b2).__name__}: {b2[1] if isinstance(b2, (tuple, list)) and len(b2) == 2 else b2!r}"[:300])
+        return Case(True, spec["colls"] + ["dict-second"])
     pipe = KC.KDComposeCollator(colls, dataset_mode="x class", return_ctx=True)
     (x, y), ctx = pipe(samples)
     if tuple(x.shape) != (B, 1, 4, 4) or tuple(y.shape) != (B, 3):
@@ -274,6 +291,18 @@ def check_shipped(spec):
         raise Violation("shipped:per-sample-ctx-changed", "")
     if "mix" not in spec["colls"] and (not torch.equal(x, torch.stack(xs)) or not torch.equal(y, torch.stack(ys))):
         raise Violation("shipped:batch-changed-by-mask-collator", "")
+    if spec["colls"].count("mix") == 1 and B > 1:
+        # the one mix member mixed the item the CONTAINER's mode calls x (constant images k+1) with its roll partner, by the reported weights
+        lam = ctx["lambda"].flatten().tolist()
+        if len(lam) == 1:
+            lam = lam * B  # one weight for the whole batch
+        for i in range(B):
+            p_ = (i - 1) % B
+            ex = lam[i] * (i + 1) + (1 - lam[i]) * (p_ + 1)
+            ey = lam[i] * ys[i] + (1 - lam[i]) * ys[p_]
+            if abs(float(x[i].flatten()[0]) - ex) > 1e-4 or float((y[i] - ey).abs().max()) > 1e-4:
+                raise Violation("shipped:mix-member-did-not-mix-the-containers-x-and-class", f"row {i}: x {float(x[i].flatten()[0]):.4f} expected {ex:.4f}, "
+                                                                                            f"y {y[i].tolist()} expected {ey.tolist()}")
     return Case(len(spec["colls"]) >= 2, spec["colls"])
 
 
@@ -341,7 +370,7 @@ def check_padding(spec):
 MODE = st.sampled_from(["before", "after", None])
 PIPE = st.fixed_dictionaries({
     "B": st.integers(1, 6),
-    "items": st.lists(st.sampled_from(["int", "scalar_t", "views"]), min_size=0, max_size=3).flatmap(
+    "items": st.lists(st.sampled_from(["int", "scalar_t", "views", "dictitem"]), min_size=0, max_size=3).flatmap(
         lambda rest: st.integers(0, len(rest)).map(lambda pos: rest[:pos] + ["x"] + rest[pos:])),
     "modes": st.one_of(st.lists(MODE, min_size=1, max_size=4),
                        st.sampled_from([[None, "after", "before"], [None, None, "before"], [None, "before", "before"], [None, "after"],
@@ -352,7 +381,7 @@ PIPE = st.fixed_dictionaries({
     "silent": st.booleans(), "decoy": st.sampled_from([None, "before", "after"]),
 })
 SHIPPED = st.fixed_dictionaries({"B": st.integers(2, 6), "colls": st.lists(st.sampled_from(["mix", "dino"]), min_size=1, max_size=3),
-                                 "seed": st.integers(0, 999)})
+                                 "seed": st.integers(0, 999), "own_mode": st.booleans(), "dict_second": st.sampled_from([False, False, True])})
 PAD = st.fixed_dictionaries({
     "lens": st.lists(st.integers(1, 7), min_size=1, max_size=6),
     "items": st.lists(st.sampled_from(["seq", "seq", "seq2", "seq3", "seq4", "scalar_t", "int", "pyfloat"]), min_size=1, max_size=4),
